@@ -37,9 +37,10 @@ MANIFEST = {
     "text": ("Coq (Sched.v): the future tree the static executor builds (try_join_all over fields and list items exactly as futures-util's small "
              "TryJoinAll polls: index order, first error seen wins, the rest dropped; Option<T> catch appending to the shared error list in completion "
              "order; the serial loop of the mutation root; resolvers as gates) and run : schedule -> tree -> response. Theorems for all trees and all "
-             "schedules that let the request complete: the response data never depends on the schedule; the multiset of error paths does not depend "
-             "on it when no try_join_all has a failing child next to another child that raises any error; in a mutation every event of root field j "
-             "comes after every event of root field i<j. Refuted today (two recorded findings, witnesses replayed on the real code): two failing "
+             "schedules that let the request complete (such a schedule exists for every tree): the response data never depends on the schedule; the "
+             "multiset of error paths does not depend on it when no try_join_all has a failing child next to another child that raises any error; both "
+             "equal the run with every resolver ready; in a mutation, after any schedule prefix, every event of root field j or beneath it comes after "
+             "every event of root field i<j or beneath it (C04, second half). Refuted today (two recorded findings, witnesses replayed on the real code): two failing "
              "non-null siblings report whichever error is polled first; an uncaught error drops siblings whose errors would otherwise be reported. "
              "The model is compared with the real library for every order of gate openings (exhaustive up to 5-6 gates) on data, error order and event log."),
     "note": "trusted: Coq kernel, harness scheduler, sampled agreement model vs code, transcription of futures-util TryJoinAll; no axioms",
@@ -48,5 +49,5 @@ MANIFEST = {
 
 def run(tier, seed, replay=None):
     spec = dict(SPEC)
-    spec["extra_args"] = ["5", "125", "1200"] if tier == "quick" else ["6", "800", "40000"]
+    spec["extra_args"] = ["5", "125", "900"] if tier == "quick" else ["6", "800", "40000"]
     return c.run_standard(spec, tier, seed, replay)
